@@ -225,6 +225,8 @@ def machine_check(case):
             _call(f.remove_correlation, market_id1=i, market_id2=j, time=t)
             corr_now = trial
         elif kind == "shock":
+            if not (hasattr(f, "prices") and hasattr(f, "_generated_until")):
+                continue  # the attributes Market.change_fundamental_price writes are gone: shocks cannot be emulated here
             # what Market.change_fundamental_price does
             cur = _call(f.get_fundamental_price, market_id=i, time=t)
             if (i, t) in mem and mem[(i, t)] != cur:
